@@ -18,13 +18,16 @@ use std::path::PathBuf;
 pub struct Paths {
     pub verif: PathBuf,
     pub build: PathBuf,
+    /// where evidence/ and replays/ are written (default: verif)
+    pub out: PathBuf,
 }
 
 impl Paths {
     pub fn from_env() -> Paths {
         let verif = PathBuf::from(std::env::var("VERIF_DIR").unwrap_or_else(|_| "/verif".into()));
         let build = PathBuf::from(std::env::var("VERIF_BUILD").unwrap_or_else(|_| verif.join(".build").to_string_lossy().into_owned()));
-        Paths { verif, build }
+        let out = PathBuf::from(std::env::var("VERIF_OUT").unwrap_or_else(|_| verif.to_string_lossy().into_owned()));
+        Paths { verif, build, out }
     }
     pub fn pdlc(&self) -> PathBuf {
         self.build.join("repo-target/release/pdlc")
